@@ -99,6 +99,8 @@ pub enum SOp<T> {
     Inc(usize, (T, T, T), T, T),
     /// position, prices, size delta, collateral withdrawal
     Dec(usize, (T, T, T), T, T),
+    /// clock advance in seconds, then update_fees_state at the prices
+    Fees(u64, (T, T, T)),
 }
 
 macro_rules! gen_for {
@@ -245,11 +247,13 @@ macro_rules! gen_for {
                 let kind: u64;
                 let idx: usize;
                 let mut forced: Option<($U, $U)> = None;
+                let mut forced_dt: Option<u64> = None;
                 if let Some(sc) = script {
                     let mkp = |t: ($U, $U, $U)| Prices { index_token_price: Price { min: t.0, max: t.0 }, long_token_price: Price { min: t.1, max: t.1 }, short_token_price: Price { min: t.2, max: t.2 } };
                     match sc.ops[k - 1] {
                         SOp::Inc(i, pr, c, sd) => { idx = i; prices = mkp(pr); kind = 1; forced = Some((c, sd)); }
                         SOp::Dec(i, pr, sd, wd) => { idx = i; prices = mkp(pr); kind = 2; forced = Some((sd, wd)); }
+                        SOp::Fees(dt, pr) => { idx = 0; prices = mkp(pr); kind = 0; forced_dt = Some(dt); }
                     }
                 } else if let Some((i, pr)) = pending_close.take() {
                     prices = pr; kind = 100; idx = i;
@@ -286,9 +290,9 @@ macro_rules! gen_for {
                 }
 
                 // ---- update_fees_state: clock forward, distribute impact, borrowing, funding
-                if script.is_none() && (kind == 0 || (kind != 100 && kind != 0 && rng.chance(2, 3))) {
+                if forced_dt.is_some() || (script.is_none() && (kind == 0 || (kind != 100 && kind != 0 && rng.chance(2, 3)))) {
                     let snap = m.clone();
-                    let dt = if kind == 0 { *rng.pick(&[1u64, 60, 3600, 86_400, 604_800]) } else { *rng.pick(&[0u64, 0, 1, 60, 3600]) };
+                    let dt = if let Some(d) = forced_dt { d } else if kind == 0 { *rng.pick(&[1u64, 60, 3600, 86_400, 604_800]) } else { *rng.pick(&[0u64, 0, 1, 60, 3600]) };
                     m.move_clock_forward(dt);
                     let r = (|| -> gmsol_model::Result<()> {
                         m.distribute_position_impact()?.execute()?;
@@ -487,10 +491,42 @@ macro_rules! gen_for {
             if n_roundtrip > 0 { tag.push_str("+roundtrip"); }
             if trivial { tag = format!("hist{w}/trivial"); }
             if script.is_some() { tag = format!("replay{w}/ok{}", n_ok); }
-            emit(&tag, &format!("Hist {w} {dec} {} {s0} [{}] [{}]", cfg.coq(), ps0.join("; "), steps.join("; ")));
+            let term = format!("Hist {w} {dec} {} {s0} [{}] [{}]", cfg.coq(), ps0.join("; "), steps.join("; "));
+            if mode == "c08" { emit(&tag, &format!("H8 ({term})")); } else { emit(&tag, &term); }
         }
     };
 }
+
+macro_rules! pack_for {
+    ($fname:ident, $U:ty, $W:expr, $DEC:expr) => {
+        /// direct cases for pack_to_funding_amount_per_size / unpack_to_funding_amount_delta
+        fn $fname(rng: &mut Rng) {
+            use gmsol_model::action::update_funding_state::{pack_to_funding_amount_per_size, unpack_to_funding_amount_delta};
+            let w: u32 = $W;
+            let dec: u8 = $DEC;
+            let big = w == 128;
+            let adj: $U = if rng.chance(1, 8) { rng.uint(20) as $U } else if big { 10_000_000_000 } else { 10_000 };
+            let ru = rng.chance(1, 2);
+            if rng.chance(1, 2) {
+                let oi: $U = match rng.below(6) { 0 => 0, 1 => 1, _ => (rng.uint(if big { 90 } else { 50 }) as $U) };
+                let fv: $U = match rng.below(6) { 0 => 0, 1 => oi, 2 => rng.uint(w) as $U, _ => if oi == 0 { rng.uint(30) as $U } else { (rng.next128() as $U) % oi.max(1) / (rng.below(1000) as $U + 1) } };
+                let price: $U = match rng.below(5) { 0 => 1, 1 => (rng.uint(w) as $U).max(1), _ => (rng.uint(if big { 50 } else { 30 }) as $U).max(1) };
+                let r = pack_to_funding_amount_per_size::<$U, $DEC>(&adj, &fv, &oi, &price, ru);
+                emit(&format!("pack{w}/{}", if fv == 0 || oi == 0 { "trivial" } else if r.is_some() { "ok" } else { "fail" }),
+                     &format!("Pack8 {w} {dec} {} {} {} {} {} {}", z(adj), z(fv), z(oi), z(price), b(ru), oz(r)));
+            } else {
+                let latest: $U = rng.uint(if big { 100 } else { 55 }) as $U;
+                let pv: $U = match rng.below(5) { 0 => latest, 1 => latest.saturating_add(1), 2 => 0, _ => if latest == 0 { 0 } else { (rng.next128() as $U) % latest } };
+                let size: $U = match rng.below(6) { 0 => 0, 1 => rng.uint(w) as $U, _ => rng.uint(if big { 90 } else { 50 }) as $U };
+                let r = unpack_to_funding_amount_delta::<$U, $DEC>(&adj, &latest, &pv, &size, ru);
+                emit(&format!("unpack{w}/{}", if size == 0 || latest == pv { "trivial" } else if r.is_some() { "ok" } else { "fail" }),
+                     &format!("Unpack8 {w} {dec} {} {} {} {} {} {}", z(adj), z(latest), z(pv), z(size), b(ru), oz(r)));
+            }
+        }
+    };
+}
+pack_for!(pack64, u64, 64, 9);
+pack_for!(pack128, u128, 128, 20);
 
 gen_for!(gen64, u64, i64, 64, 9);
 gen_for!(gen128, u128, i128, 128, 20);
@@ -540,6 +576,51 @@ fn script_c10() -> Script<u64> {
     }
 }
 
+/// C08: a cost remainder that converts to zero secondary-output tokens is treated as paid, so the fee step
+/// credits the pools with fees the trader never paid (index / long token worth 1e9 per unit, collateral worth 1).
+fn script_c08() -> Script<u64> {
+    Script {
+        cfg: test_cfg(), primary: (1_000_000, 100_000_000_000_000), impact_pool: 0,
+        positions: vec![(true, false), (false, false)],
+        ops: vec![
+            SOp::Inc(0, (1_000_000_000, 1_000_000_000, 1), 100_000_000_000, 1_000_000_000_000),
+            SOp::Dec(0, (901_500_000, 901_500_000, 1), 1_000_000_000_000, 0),
+        ],
+    }
+}
+
+/// C08: the receiver of a funding round settles before the payer: claimable funding leaves the vault before any
+/// funding fee has been collected (cash residual negative; the payer's debt is still accrued).
+fn script_c08_claim_first() -> Script<u64> {
+    Script {
+        cfg: test_cfg(), primary: (1_000_000_000_000, 100_000_000_000_000), impact_pool: 0,
+        positions: vec![(true, true), (false, false)],
+        ops: vec![
+            SOp::Fees(0, (123, 123, 1)),
+            SOp::Inc(0, (123, 123, 1), 20_000_000_000, 10_000_000_000_000),
+            SOp::Inc(1, (123, 123, 1), 2_000_000_000_000, 5_000_000_000_000),
+            SOp::Fees(3600, (123, 123, 1)),
+            SOp::Dec(1, (123, 123, 1), 5_000_000_000_000, 0),
+        ],
+    }
+}
+
+/// C08: same funding round, but the payer settles before the receiver: every clause holds.
+fn script_c08_pay_first() -> Script<u64> {
+    let mut sc = script_c08_claim_first();
+    sc.ops = vec![
+        SOp::Fees(0, (123, 123, 1)),
+        SOp::Inc(0, (123, 123, 1), 20_000_000_000, 10_000_000_000_000),
+        SOp::Inc(1, (123, 123, 1), 2_000_000_000_000, 5_000_000_000_000),
+        SOp::Fees(3600, (123, 123, 1)),
+        SOp::Dec(0, (123, 123, 1), 4_000_000_000_000, 0),
+        SOp::Dec(1, (123, 123, 1), 5_000_000_000_000, 0),
+        SOp::Fees(7200, (124, 124, 1)),
+        SOp::Dec(0, (124, 124, 1), 6_000_000_000_000, 0),
+    ];
+    sc
+}
+
 fn main() {
     let a = args();
     let mut mode = "mix".to_string();
@@ -553,10 +634,20 @@ fn main() {
     if mode == "c09" || mode == "mix" {
         gen64(&mut rng, &mode, Some(&script_c09()));
     }
+    if mode == "c08" || mode == "mix" {
+        gen64(&mut rng, &mode, Some(&script_c08()));
+        gen64(&mut rng, &mode, Some(&script_c08_claim_first()));
+        gen64(&mut rng, &mode, Some(&script_c08_pay_first()));
+    }
     if mode == "c10" || mode == "mix" {
         gen64(&mut rng, &mode, Some(&script_c10()));
     }
     for _ in 0..a.n {
+        if mode == "c08" && rng.chance(1, 4) {
+            // a block of cheap direct cases
+            for _ in 0..8 { if rng.chance(1, 2) { pack64(&mut rng) } else { pack128(&mut rng) } }
+            continue;
+        }
         if rng.chance(1, 2) { gen64(&mut rng, &mode, None) } else { gen128(&mut rng, &mode, None) }
     }
 }
